@@ -1550,6 +1550,12 @@ func funcSetpathWithAllocator(v any, args []any) any {
 	return setpath(v, args[0], args[1], args[2].(allocator))
 }
 
+// Used in compiler#compileModify: the new value is the input and the value
+// to update is an argument, so that the latter is loaded before the former.
+func funcSetpathOfModify(n any, args []any) any {
+	return setpath(args[1], args[0], n, args[2].(allocator))
+}
+
 func setpath(v, p, n any, a allocator) any {
 	path, ok := p.([]any)
 	if !ok {
